@@ -92,7 +92,11 @@ theorem afterMatch_colon (p qt c : Bytes) (hq : qt = [] ∨ qt = [63]) (hn : Boo
     have hk' := hks k' (by simp)
     have hpos := keyText_pos hk'
     cases hopt : k.optional <;> cases hopt' : k'.optional <;>
-      simp [closeB, renderRest, item, hopt, hopt', rd, brOf, sepLen, sepBytes, hcl, hcl'] at hpl ⊢
+      simp [closeB, renderRest, item, hopt, hopt'] at hpl <;>
+      (have hA : ¬ pl = 0 := by omega) <;> (have hB : 0 < pl := by omega) <;>
+      (have hC : 1 < pl := by omega) <;>
+      simp [closeB, renderRest, item, hopt, hopt', rd, brOf, sepLen, sepBytes, hcl, hcl', hA, hB, hC] <;>
+      (try (intro hx; omega))
 
 theorem afterMatch_q (p c : Bytes) (hn : Bool) (d : Int) (rec : MState → Bool × MState)
     (pp : Nat) (pl : Int) (cp cl : Nat) (br : Int) (nums : List Int) (idx : Nat) (oob : Bool)
@@ -105,7 +109,10 @@ theorem afterMatch_q (p c : Bytes) (hn : Bool) (d : Int) (rec : MState → Bool 
   by_cases h0 : pl = 0
   · simp [h0, hcl, hcl']
   · simp [h0, hcl, hcl']
-    intros; simp_all
+    have e : ∀ x : UInt8, ¬ (x = 63 ∧ x = 58) := by
+      intro x ⟨h1, h2⟩; rw [h1] at h2; exact absurd h2 (by decide)
+    rw [if_neg (fun hh => e _ ⟨hh.2.1, hh.2.2⟩), if_neg (fun hh => e _ ⟨hh.2.1, hh.2.2.2⟩),
+      if_neg (fun hh => e _ ⟨hh.2.1, hh.2.2.2⟩), if_neg (fun hh => e _ ⟨hh.2.1, hh.2.2.2.2⟩)]
 
 theorem afterMatch_end (p c : Bytes) (hn : Bool) (d : Int) (rec : MState → Bool × MState)
     (pp : Nat) (pl : Int) (cp : Nat) (br : Int) (nums : List Int) (idx : Nat) (oob : Bool) :
@@ -115,5 +122,412 @@ theorem afterMatch_end (p c : Bytes) (hn : Bool) (d : Int) (rec : MState → Boo
             trailingLoop p hn d (p.length + 2) ⟨pp, pl, cp, 0, br, nums, idx, oob⟩) := by
   unfold afterMatch
   by_cases h0 : pl = 0 <;> simp [h0]
+
+/-! ### header side -/
+
+/-- the header text after the current mnemonic: ':' m for every further mnemonic -/
+def hdrRest : List Bytes → Bytes
+  | [] => []
+  | m :: ms => 58 :: m ++ hdrRest ms
+
+/-- bytes of a mnemonic: no NUL, no ':', nothing `strtol` would skip or take as a sign -/
+def MnOK (m : Bytes) : Prop := ∀ b ∈ m, b ≠ 0 ∧ b ≠ 58 ∧ (isDigit b = false → nonNumStart b = true)
+
+/-- what the walker is expected to return -/
+def Good (hn : Bool) (d : Int) (r : Bool × MState) (kws : List Kw) (ms : List Bytes)
+    (nums : List Int) (idx : Nat) (oob : Bool) : Prop :=
+  r.1 = (greedy kws ms).isSome ∧ r.2.oob = oob ∧
+  ∀ sol, greedy kws ms = some sol → r.2.numbers = if hn then fill nums idx (want sol d) else nums
+
+/-- all suffixes of the reading fit an int32 -/
+def Small (kws : List Kw) (ms : List Bytes) : Prop :=
+  ∀ sol, greedy kws ms = some sol → ∀ o ∈ sol, ∀ v, o = some v → v < 2^31
+
+/-- the recursive call is good on every state at a keyword start -/
+def RecOK (p qt c ct : Bytes) (hn : Bool) (d : Int) (rec : MState → Bool × MState) (ks : List Kw)
+    (oob : Bool) : Prop :=
+  ∀ k' ks' m' ms' pp' pl' cp' cl' nums' idx', ks = k' :: ks' → (∀ x ∈ m' :: ms', MnOK x) →
+    p.drop pp' = kwText k' ks' ++ qt → pl' = ((kwText k' ks').length : Int) →
+    c.drop cp' = m' ++ hdrRest ms' ++ ct → cl' = (m' ++ hdrRest ms').length →
+    Small (k' :: ks') (m' :: ms') →
+    Good hn d (rec ⟨pp', pl', cp', cl', brOf k', nums', idx', oob⟩) (k' :: ks') (m' :: ms') nums' idx' oob
+
+theorem sep_next (p qt : Bytes) (k k' : Kw) (ks' : List Kw) (pp : Nat) (pl : Int)
+    (h : p.drop pp = closeB k ++ renderRest (k' :: ks') ++ qt)
+    (hpl : pl = ((closeB k ++ renderRest (k' :: ks')).length : Int)) :
+    p.drop (pp + sepLen k k') = kwText k' ks' ++ qt ∧ pl - sepLen k k' = ((kwText k' ks').length : Int) := by
+  rw [after_eq_sep] at h hpl
+  constructor
+  · exact drop_add_of_drop p pp (sepBytes k k') _ (by rw [h, List.append_assoc])
+  · rw [hpl]; simp [sepLen]; omega
+
+/-- the keyword did not match -/
+theorem step_nomatch (p qt c ct : Bytes) (hq : qt = [] ∨ qt = [63]) (hn : Bool) (d : Int)
+    (rec : MState → Bool × MState) (k : Kw) (ks : List Kw) (hks : ∀ k ∈ ks, KwOK k)
+    (m : Bytes) (ms : List Bytes) (hm : ∀ x ∈ m :: ms, MnOK x)
+    (pp : Nat) (pl : Int) (cp cl : Nat) (nums : List Int) (idx : Nat) (oob : Bool)
+    (h : p.drop pp = closeB k ++ renderRest ks ++ qt)
+    (hpl : pl = ((closeB k ++ renderRest ks).length : Int))
+    (hc : c.drop cp = m ++ hdrRest ms ++ ct) (hcl : cl = (m ++ hdrRest ms).length)
+    (hkm : kwMatch k m = none) (hsmall : Small (k :: ks) (m :: ms))
+    (hrec : RecOK p qt c ct hn d rec ks oob) :
+    Good hn d (afterNoMatch p rec ⟨pp, pl, cp, cl, brOf k,
+        if k.numeric then (if hn then nums.set idx d else nums) else nums,
+        if k.numeric then idx + 1 else idx, oob⟩) (k :: ks) (m :: ms) nums idx oob := by
+  rw [afterNoMatch_eval p qt hq rec k ks hks pp pl cp cl _ _ oob h hpl]
+  match ks, hks, hrec with
+  | [], _, _ =>
+    simp only [Good, greedy, hkm]
+    cases k.optional <;> simp [greedy]
+  | k' :: ks', hks, hrec =>
+    cases hopt : k.optional with
+    | false => simp [Good, greedy, hkm, hopt]
+    | true =>
+      simp only [if_true]
+      obtain ⟨h1, h2⟩ := sep_next p qt k k' ks' pp pl h hpl
+      have hg : greedy (k :: k' :: ks') (m :: ms) = (greedy (k' :: ks') (m :: ms)).map (consNum k none) := by
+        simp [greedy, hkm, hopt]
+      have hsm' : Small (k' :: ks') (m :: ms) := by
+        intro sol' hs' o ho v hv
+        apply hsmall (consNum k none sol') (by rw [hg, hs']; rfl) o _ v hv
+        unfold consNum; split <;> simp [ho]
+      have := hrec k' ks' m ms (pp + sepLen k k') (pl - sepLen k k') cp cl
+        (if k.numeric then (if hn then nums.set idx d else nums) else nums)
+        (if k.numeric then idx + 1 else idx) rfl hm h1 h2 hc hcl hsm'
+      obtain ⟨g1, g2, g3⟩ := this
+      refine ⟨?_, g2, ?_⟩
+      · rw [g1, hg]; simp
+      · intro sol hsol
+        rw [hg] at hsol
+        simp only [Option.map_eq_some_iff] at hsol
+        obtain ⟨sol', hs', rfl⟩ := hsol
+        rw [g3 sol' hs', want_consNum]
+        cases hn <;> cases k.numeric <;> simp [fill]
+
+/-- the value a matched keyword puts into numbers[] -/
+def wantOne (n : Option Nat) (d : Int) : Int := match n with | some v => (v : Int) | none => d
+
+theorem fill_step (hn : Bool) (nums : List Int) (idx : Nat) (d : Int) (k : Kw) (n' : Option Nat)
+    (sol' : List (Option Nat)) :
+    (if hn then fill (if hn then (if k.numeric then nums.set idx (wantOne n' d) else nums) else nums)
+        (if k.numeric then idx + 1 else idx) (want sol' d)
+     else (if hn then (if k.numeric then nums.set idx (wantOne n' d) else nums) else nums)) =
+    if hn then fill nums idx (want (consNum k n' sol') d) else nums := by
+  rw [want_consNum]
+  cases hn <;> cases k.numeric <;> simp [fill, wantOne] <;> cases n' <;> rfl
+
+theorem renderRest_eq_nil (ks : List Kw) (h : renderRest ks = []) : ks = [] := by
+  cases ks with
+  | nil => rfl
+  | cons k ks => cases hopt : k.optional <;> simp [renderRest, item, hopt] at h
+
+/-- the keyword matched a whole mnemonic -/
+theorem step_match (p qt c ct : Bytes) (hq : qt = [] ∨ qt = [63]) (hn : Bool) (d : Int)
+    (rec : MState → Bool × MState) (k : Kw) (ks : List Kw) (hks : ∀ k ∈ ks, KwOK k)
+    (m : Bytes) (ms : List Bytes) (hm : ∀ x ∈ m :: ms, MnOK x)
+    (pp : Nat) (pl : Int) (cp cl : Nat) (nums numsX : List Int) (idx : Nat) (oob : Bool)
+    (h : p.drop pp = closeB k ++ renderRest ks ++ qt)
+    (hpl : pl = ((closeB k ++ renderRest ks).length : Int))
+    (hc : c.drop cp = hdrRest ms ++ ct) (hcl : cl = (hdrRest ms).length)
+    (n' : Option Nat) (hkm : kwMatch k m = some n')
+    (hX : (∀ v, n' = some v → v < 2^31) →
+      numsX = if hn then (if k.numeric then nums.set idx (wantOne n' d) else nums) else nums)
+    (hsmall : Small (k :: ks) (m :: ms))
+    (hrec : RecOK p qt c ct hn d rec ks oob) :
+    Good hn d (afterMatch p c hn d rec ⟨pp, pl, cp, cl, brOf k, numsX,
+        if k.numeric then idx + 1 else idx, oob⟩) (k :: ks) (m :: ms) nums idx oob := by
+  have hg : greedy (k :: ks) (m :: ms) = (greedy ks ms).map (consNum k n') := by
+    simp [greedy, hkm]
+  -- the numbers clause, once the tail is known
+  have hnum : ∀ (r : MState) sol', greedy ks ms = some sol' →
+      r.numbers = (if hn then fill numsX (if k.numeric then idx + 1 else idx) (want sol' d) else numsX) →
+      r.numbers = if hn then fill nums idx (want (consNum k n' sol') d) else nums := by
+    intro r sol' hs' hr
+    have hsm : ∀ v, n' = some v → v < 2^31 := by
+      intro v hv
+      cases hknum : k.numeric with
+      | false => subst hv; exact absurd hkm (kwMatch_nonnumeric k m v hknum)
+      | true =>
+        apply hsmall (consNum k n' sol') (by rw [hg, hs']; rfl) n' _ v hv
+        simp [consNum, hknum]
+    rw [hr, hX hsm, fill_step]
+  have hsm' : Small ks ms := by
+    intro sol' hs' o ho v hv
+    apply hsmall (consNum k n' sol') (by rw [hg, hs']; rfl) o _ v hv
+    unfold consNum; split <;> simp [ho]
+  match ms, hm, hc, hcl, hg, hnum, hsm' with
+  | [], _, hc, hcl, hg, hnum, _ =>
+    simp only [hdrRest, List.length_nil] at hcl
+    subst hcl
+    have hfuel : (closeB k ++ renderRest ks).length ≤ p.length + 2 := by
+      have := congrArg List.length h
+      simp at this ⊢; omega
+    obtain ⟨t1, t2, t3⟩ := tl_after p qt hn d k ks hks (p.length + 2) pp pl cp 0 numsX
+      (if k.numeric then idx + 1 else idx) oob h hpl hfuel
+    have e : afterMatch p c hn d rec ⟨pp, pl, cp, 0, brOf k, numsX, if k.numeric then idx + 1 else idx, oob⟩ =
+        ((trailingLoop p hn d (p.length + 2) ⟨pp, pl, cp, 0, brOf k, numsX,
+            if k.numeric then idx + 1 else idx, oob⟩).pl == 0,
+          trailingLoop p hn d (p.length + 2) ⟨pp, pl, cp, 0, brOf k, numsX,
+            if k.numeric then idx + 1 else idx, oob⟩) := by
+      rw [afterMatch_end]
+      by_cases h0 : pl = 0
+      · rw [if_pos h0, trailingLoop_zero_pl _ _ _ _ _ (by simpa using h0)]; simp [h0]
+      · rw [if_neg h0]
+    rw [e]
+    refine ⟨?_, t1, ?_⟩
+    · simp only [t2, hg]; simp
+    · intro sol hsol
+      rw [hg] at hsol
+      simp only [Option.map_eq_some_iff] at hsol
+      obtain ⟨sol', hs', rfl⟩ := hsol
+      exact hnum _ sol' hs' (t3 sol' hs')
+  | m' :: ms', hm, hc, hcl, hg, hnum, hsm' =>
+    have hc' : c.drop cp = 58 :: (m' ++ hdrRest ms' ++ ct) := by simpa [hdrRest] using hc
+    have hc0 : rd c cp = 58 := rd_head c cp 58 _ hc'
+    have hclpos : 0 < cl := by rw [hcl]; simp [hdrRest]
+    rw [afterMatch_colon p qt c hq hn d rec k ks hks pp pl cp cl _ _ oob h hpl hc0 hclpos]
+    match ks, hks, hrec, hg, hnum, hsm' with
+    | [], _, _, hg, _, _ => simp [Good, hkm, greedy]
+    | k' :: ks', hks, hrec, hg, hnum, hsm' =>
+      obtain ⟨h1, h2⟩ := sep_next p qt k k' ks' pp pl h hpl
+      have := hrec k' ks' m' ms' (pp + sepLen k k') (pl - sepLen k k') (cp + 1) (cl - 1) numsX
+        (if k.numeric then idx + 1 else idx) rfl (fun x hx => hm x (List.mem_cons_of_mem _ hx)) h1 h2
+        (drop_tail c cp 58 _ hc') (by rw [hcl]; simp [hdrRest]) hsm'
+      obtain ⟨g1, g2, g3⟩ := this
+      refine ⟨?_, g2, ?_⟩
+      · rw [g1, hg]; simp
+      · intro sol hsol
+        rw [hg] at hsol
+        simp only [Option.map_eq_some_iff] at hsol
+        obtain ⟨sol', hs', rfl⟩ := hsol
+        exact hnum _ sol' hs' (g3 sol' hs')
+
+/-- what `cmdSeparatorPos` cuts off the header: the mnemonic `m`, or its part before a '?' -/
+theorem hdr_split (c ct : Bytes) (hct : ct = [] ∨ ct = [63]) (m : Bytes) (ms : List Bytes)
+    (hm : MnOK m) (cp cl : Nat)
+    (hc : c.drop cp = m ++ hdrRest ms ++ ct) (hcl : cl = (m ++ hdrRest ms).length) :
+    ∃ m1 crest, c.drop cp = m1 ++ crest ∧ cmdSeparatorPos c cp cl = m1.length ∧
+      (∀ b ∈ m1, isDigit b = false → nonNumStart b = true) ∧ nonNumStart (crest.headD 0) = true ∧
+      ((m1 = m ∧ crest = hdrRest ms ++ ct) ∨ (63 ∈ m ∧ rd c (cp + m1.length) = 63 ∧ m1.length < cl)) := by
+  let m1 := m.takeWhile (fun b => b != 63)
+  let m2 := m.dropWhile (fun b => b != 63)
+  have hmm : m = m1 ++ m2 := (List.takeWhile_append_dropWhile).symm
+  have hc1 : c.drop cp = m1 ++ (m2 ++ hdrRest ms ++ ct) := by
+    rw [hc, hmm]; simp [List.append_assoc]
+  have hsub : ∀ b ∈ m1, b ∈ m := fun b hb => (List.takeWhile_sublist _).subset hb
+  have hclean : ∀ b ∈ m1, b ≠ 0 ∧ [58, 63].contains b = false := by
+    intro b hb
+    have h63 : b ≠ 63 := by
+      have := List.all_eq_true.mp (takeWhile_all (fun b => b != 63) m) b hb; simpa using this
+    have := hm b (hsub b hb)
+    simp [this.1, this.2.1, h63]
+  have hlenm : m.length = m1.length + m2.length := by
+    have := congrArg List.length (List.takeWhile_append_dropWhile (p := fun b => b != 63) (l := m))
+    simp only [List.length_append] at this; exact this.symm
+  refine ⟨m1, m2 ++ hdrRest ms ++ ct, hc1, ?_, fun b hb => (hm b (hsub b hb)).2.2, ?_, ?_⟩
+  · unfold cmdSeparatorPos
+    apply sepPos_drop c cp cl _ m1 _ hc1 hclean
+    by_cases h2 : m2 = []
+    · cases ms with
+      | nil => left; rw [hcl, List.length_append, hlenm, h2]; simp [hdrRest]
+      | cons m' ms' =>
+        right; rw [hcl, List.length_append, hlenm, h2]; simp [hdrRest]
+    · right
+      have hh := dropWhile_head (fun b => b != 63) m h2
+      have hpos : 0 < m2.length := List.length_pos_iff.mpr h2
+      refine ⟨by rw [hcl, List.length_append, hlenm]; omega, ?_, ?_⟩ <;>
+      · cases hm2 : m2 with
+        | nil => exact absurd hm2 h2
+        | cons b t =>
+          have : b = 63 := by simpa [m2, hm2] using hh
+          simp [this]
+  · by_cases h2 : m2 = []
+    · rw [h2]
+      cases ms with
+      | nil => rcases hct with rfl | rfl <;> simp [hdrRest] <;> decide
+      | cons m' ms' => simp [hdrRest]; decide
+    · have hh := dropWhile_head (fun b => b != 63) m h2
+      cases hm2 : m2 with
+      | nil => exact absurd hm2 h2
+      | cons b t =>
+        have : b = 63 := by simpa [m2, hm2] using hh
+        simp [this]; decide
+  · by_cases h2 : m2 = []
+    · left; rw [h2] at hmm ⊢; simp at hmm ⊢; exact hmm.symm
+    · right
+      have hh := dropWhile_head (fun b => b != 63) m h2
+      have hmem := dropWhile_head_mem (fun b => b != 63) m h2
+      have h63 : (m.dropWhile (fun b => b != 63)).headD 0 = 63 := by simpa using hh
+      refine ⟨h63 ▸ hmem, ?_, ?_⟩
+      · have := rd_after c cp m1 _ hc1 0
+        rw [Nat.add_zero] at this; rw [this, rd_zero]
+        cases hm2 : m2 with
+        | nil => exact absurd hm2 h2
+        | cons b t =>
+          have : b = 63 := by simpa [m2, hm2] using hh
+          simp [this]
+      · have hpos : 0 < m2.length := List.length_pos_iff.mpr h2
+        rw [hcl, List.length_append, hlenm]; omega
+
+theorem after_head (k : Kw) (ks : List Kw) (qt : Bytes) :
+    closeB k ++ renderRest ks = [] ∨
+    (0 < (closeB k ++ renderRest ks).length ∧
+      ((closeB k ++ renderRest ks ++ qt).headD 0 = 58 ∨ (closeB k ++ renderRest ks ++ qt).headD 0 = 91 ∨
+       (closeB k ++ renderRest ks ++ qt).headD 0 = 93)) := by
+  cases hopt : k.optional with
+  | true => right; simp [closeB, hopt]
+  | false =>
+    cases ks with
+    | nil => left; simp [closeB, hopt, renderRest]
+    | cons k' ks' => right; cases hopt' : k'.optional <;> simp [closeB, hopt, renderRest, item, hopt']
+
+theorem st1_eval (hn : Bool) (flag : Prop) [Decidable flag] (idx : Nat) (v : Option Int)
+    (pp : Nat) (pl : Int) (cp cl : Nat) (br : Int) (nums1 : List Int) (idx1 : Nat) (oob : Bool) :
+    applyNum hn ⟨pp, pl, cp, cl, br, nums1, idx1, oob⟩ (if flag then some idx else none) v =
+    ⟨pp, pl, cp, cl, br,
+      (if flag then (match v with | some x => if hn then nums1.set idx x else nums1 | none => nums1) else nums1),
+      idx1, oob⟩ := by
+  by_cases hf : flag <;> cases v <;> simp [hf, setNum_eq, applyNum]
+
+/-- one iteration of the main loop at the start of keyword `k` with current mnemonic `m` -/
+theorem main_step (p qt c ct : Bytes) (hq : qt = [] ∨ qt = [63]) (hct : ct = [] ∨ ct = [63])
+    (hn : Bool) (d : Int) (fuel : Nat) (k : Kw) (ks : List Kw) (hk : KwOK k) (hks : ∀ k ∈ ks, KwOK k)
+    (m : Bytes) (ms : List Bytes) (hm : ∀ x ∈ m :: ms, MnOK x)
+    (pp : Nat) (pl : Int) (cp cl : Nat) (nums : List Int) (idx : Nat) (oob : Bool)
+    (hp : p.drop pp = kwText k ks ++ qt) (hpl : pl = ((kwText k ks).length : Int))
+    (hc : c.drop cp = m ++ hdrRest ms ++ ct) (hcl : cl = (m ++ hdrRest ms).length)
+    (hsmall : Small (k :: ks) (m :: ms))
+    (hrec : RecOK p qt c ct hn d (mainLoop p c hn d fuel) ks oob) :
+    Good hn d (mainLoop p c hn d (fuel + 1) ⟨pp, pl, cp, cl, brOf k, nums, idx, oob⟩)
+      (k :: ks) (m :: ms) nums idx oob := by
+  have hp' : p.drop pp = keyText k ++ (closeB k ++ renderRest ks ++ qt) := by
+    rw [hp, kwText]; simp [List.append_assoc]
+  have hpos := keyText_pos hk
+  have hlen : (kwText k ks).length = (keyText k).length + (closeB k ++ renderRest ks).length := by
+    simp [kwText, List.append_assoc]
+  -- pattern separator
+  have hpsp : patternSeparatorPos p pp pl.toNat = (keyText k).length := by
+    apply psp_key hk p pp pl.toNat _ hp'
+    rcases after_head k ks qt with h0 | ⟨h1, h2⟩
+    · left; rw [hpl, hlen, h0]; simp
+    · right; exact ⟨by rw [hpl, hlen, Int.toNat_natCast]; omega, h2⟩
+  have hisnum : ((keyText k).length > 0 ∧ (rd p (pp + (keyText k).length - 1) == 35) = true) ↔
+      k.numeric = true := by
+    rw [keyText_isNum hk p pp _ hp']; simp [hpos]
+  -- pattern after the keyword
+  have hafter : p.drop (pp + (keyText k).length) = closeB k ++ renderRest ks ++ qt :=
+    drop_add_of_drop p pp _ _ hp'
+  have hplafter : pl - ((keyText k).length : Int) = ((closeB k ++ renderRest ks).length : Int) := by
+    rw [hpl, hlen]; omega
+  -- header
+  obtain ⟨m1, crest, hc1, hcsp, hm1, hcr, hcase⟩ :=
+    hdr_split c ct hct m ms (hm m (by simp)) cp cl hc hcl
+  have hnn : ¬ pl < 0 := by rw [hpl]; omega
+  have hmp := matchPattern_spec p pp k _ c cp m1 crest
+    (decide (k.numeric = true ∧ hn = true ∧ idx < nums.length)) hk hp' hc1 hm1 hcr
+  have hallk : ∀ k' ∈ k :: ks, KwOK k' := by
+    intro k' hk'; rcases List.mem_cons.mp hk' with rfl | h
+    · exact hk
+    · exact hks k' h
+  rw [mainLoop_succ _ _ _ _ _ _ hnn]
+  dsimp only
+  rw [hpsp, hcsp, numStep_eval hn d _ k.numeric hisnum]
+  dsimp only
+  have hflag : (if k.numeric = true ∧ hn = true ∧ idx < nums.length then some idx else none : Option Nat).isSome
+      = decide (k.numeric = true ∧ hn = true ∧ idx < nums.length) := by
+    by_cases hf : (k.numeric = true ∧ hn = true ∧ idx < nums.length) <;> simp [hf]
+  rw [hflag, st1_eval]
+  dsimp only
+  -- does the cut-off piece spell the keyword?
+  cases hR : kwMatch k m1 with
+  | none =>
+    rw [hR] at hmp
+    have hmv : ¬ ((matchPattern p pp (keyText k).length c cp m1.length
+        (decide (k.numeric = true ∧ hn = true ∧ idx < nums.length))).1 = true) := by
+      rw [hmp.1]; simp
+    rw [if_neg hmv]
+    have hkm : kwMatch k m = none := by
+      rcases hcase with ⟨h1, _⟩ | ⟨h63, _, _⟩
+      · rw [← h1]; exact hR
+      · cases hx : kwMatch k m with
+        | none => rfl
+        | some r =>
+          have := kwMatch_chars k m r hk.chars
+            (by rw [List.all_eq_true]; intro b hb
+                exact List.all_eq_true.mp hk.chars b (hk.short_mem b hb)) hx
+          have := List.all_eq_true.mp this 63 h63
+          exact absurd this (by decide)
+    exact step_nomatch p qt c ct hq hn d _ k ks hks m ms hm (pp + (keyText k).length)
+      (pl - ((keyText k).length : Int)) cp cl nums idx oob hafter hplafter hc hcl hkm hsmall hrec
+  | some n' =>
+    rw [hR] at hmp
+    have hmv : (matchPattern p pp (keyText k).length c cp m1.length
+        (decide (k.numeric = true ∧ hn = true ∧ idx < nums.length))).1 = true := by
+      rw [hmp.1]; simp
+    rw [if_pos hmv]
+    rcases hcase with ⟨h1, h2⟩ | ⟨h63, hq63, hlt⟩
+    · -- a whole mnemonic
+      subst h1
+      have hc' : c.drop (cp + m1.length) = hdrRest ms ++ ct := by
+        rw [h2] at hc1; exact drop_add_of_drop c cp m1 _ hc1
+      have hcl' : cl - m1.length = (hdrRest ms).length := by rw [hcl]; simp
+      refine step_match p qt c ct hq hn d _ k ks hks m1 ms hm (pp + (keyText k).length)
+        (pl - ((keyText k).length : Int)) (cp + m1.length) (cl - m1.length) nums _ idx oob hafter hplafter
+        hc' hcl' n' hR ?_ hsmall hrec
+      intro hsm
+      have hfull := hmp.2 (fun v hv => hsm v (by simpa using hv))
+      rw [hfull]
+      by_cases hf : (k.numeric = true ∧ hn = true ∧ idx < nums.length)
+      · obtain ⟨f1, f2, f3⟩ := hf
+        cases n' <;> simp [mpRes, f1, f2, f3, wantOne]
+      · simp only [hf, if_false]
+        cases hnum : k.numeric <;> cases hhn : hn <;> simp
+        have : nums.length ≤ idx := by simpa [hnum, hhn] using hf
+        simp [List.set_eq_of_length_le this]
+    · -- a '?' inside the mnemonic: nothing can spell it
+      have hclpos : 0 < cl - m1.length := by omega
+      rw [afterMatch_q p c hn d _ _ _ _ _ _ _ _ _ hq63 hclpos]
+      have hbad : ∀ k' ∈ k :: ks, kwMatch k' m = none := by
+        intro k' hk'
+        have hok := hallk k' hk'
+        cases hx : kwMatch k' m with
+        | none => rfl
+        | some r =>
+          have := kwMatch_chars k' m r hok.chars
+            (by rw [List.all_eq_true]; intro b hb
+                exact List.all_eq_true.mp hok.chars b (hok.short_mem b hb)) hx
+          have := List.all_eq_true.mp this 63 h63
+          exact absurd this (by decide)
+      have hg := greedy_none_of_unmatchable (k :: ks) (m :: ms) m (by simp) hbad
+      simp [Good, hg]
+
+/-- the main loop computes the list-level walker -/
+theorem mainLoop_spec (p qt c ct : Bytes) (hq : qt = [] ∨ qt = [63]) (hct : ct = [] ∨ ct = [63])
+    (hn : Bool) (d : Int) :
+    ∀ (ks : List Kw) (k : Kw) (fuel : Nat), ks.length < fuel → KwOK k → (∀ k ∈ ks, KwOK k) →
+    ∀ (m : Bytes) (ms : List Bytes), (∀ x ∈ m :: ms, MnOK x) →
+    ∀ (pp : Nat) (pl : Int) (cp cl : Nat) (nums : List Int) (idx : Nat) (oob : Bool),
+      p.drop pp = kwText k ks ++ qt → pl = ((kwText k ks).length : Int) →
+      c.drop cp = m ++ hdrRest ms ++ ct → cl = (m ++ hdrRest ms).length →
+      Small (k :: ks) (m :: ms) →
+      Good hn d (mainLoop p c hn d fuel ⟨pp, pl, cp, cl, brOf k, nums, idx, oob⟩)
+        (k :: ks) (m :: ms) nums idx oob := by
+  intro ks
+  induction ks with
+  | nil =>
+    intro k fuel hf hk hks m ms hm pp pl cp cl nums idx oob hp hpl hc hcl hsm
+    obtain ⟨f, rfl⟩ : ∃ f, fuel = f + 1 := ⟨fuel - 1, by omega⟩
+    apply main_step p qt c ct hq hct hn d f k [] hk hks m ms hm pp pl cp cl nums idx oob hp hpl hc hcl hsm
+    intro k' ks' m' ms' pp' pl' cp' cl' nums' idx' h
+    cases h
+  | cons k1 ks1 ih =>
+    intro k fuel hf hk hks m ms hm pp pl cp cl nums idx oob hp hpl hc hcl hsm
+    obtain ⟨f, rfl⟩ : ∃ f, fuel = f + 1 := ⟨fuel - 1, by omega⟩
+    apply main_step p qt c ct hq hct hn d f k (k1 :: ks1) hk hks m ms hm pp pl cp cl nums idx oob hp hpl hc hcl hsm
+    intro k' ks' m' ms' pp' pl' cp' cl' nums' idx' h hm' hp' hpl' hc' hcl' hsm'
+    injection h with h1 h2
+    subst h1; subst h2
+    exact ih k1 f (by simp at hf; omega) (hks k1 (by simp)) (fun x hx => hks x (by simp [hx]))
+      m' ms' hm' pp' pl' cp' cl' nums' idx' oob hp' hpl' hc' hcl' hsm'
 
 end ScpiVerif.Lemmas.Match
